@@ -1,47 +1,93 @@
 #!/usr/bin/env python3
-"""Apply one mutant from notes/mutants.json (or a patch file) to /repo, run checks, restore /repo.
+"""Run checks against a mutated copy of deltio, in a scratch area outside /repo and /verif.
 
-  tools/mutate.py <mutant-id|patch.diff> <ID>[:tier] [<ID>...]
+  tools/mutate.py [--scratch N] <mutant-id|patch.diff> <ID>[:tier] [<ID>...]
+  tools/mutate.py [--scratch N] --clean
 
-Never leaves /repo dirty: the working tree is restored with `git checkout -- .` even on error.
+The scratch area /tmp/mutwork<N> holds a git worktree of /repo (at /repo's HEAD) and a copy
+of /verif whose harness path-depends on that worktree, so /repo itself is never touched and
+work in /verif can go on while this runs. `--clean` removes the worktree and the build output.
 """
-import json, os, subprocess, sys
+import json
+import os
+import shutil
+import subprocess
+import sys
+
 ROOT = os.path.dirname(os.path.dirname(os.path.abspath(__file__)))
 
+
+def sh(*a, **kw):
+    return subprocess.run(list(a), stdout=subprocess.PIPE, stderr=subprocess.STDOUT, text=True, **kw)
+
+
 def main():
-    mid = sys.argv[1]
-    checks = sys.argv[2:]
-    st = subprocess.run(["git", "-C", "/repo", "status", "--porcelain"], stdout=subprocess.PIPE, text=True).stdout.strip()
-    if st:
-        print("refusing: /repo is dirty:\n" + st); return 2
+    args = sys.argv[1:]
+    n = "0"
+    if args and args[0] == "--scratch":
+        n = args[1]
+        args = args[2:]
+    base = "/tmp/mutwork%s" % n
+    srepo, sverif = base + "/repo", base + "/verif"
+    if args and args[0] == "--clean":
+        sh("git", "-C", "/repo", "worktree", "remove", "--force", srepo)
+        shutil.rmtree(base, ignore_errors=True)
+        sh("git", "-C", "/repo", "worktree", "prune")
+        print("removed", base)
+        return 0
+    mid, checks = args[0], args[1:]
+    os.makedirs(base, exist_ok=True)
+    head = sh("git", "-C", "/repo", "rev-parse", "HEAD").stdout.strip()
+    if not os.path.exists(srepo):
+        r = sh("git", "-C", "/repo", "worktree", "add", "--detach", srepo, head)
+        if r.returncode != 0:
+            print(r.stdout)
+            return 2
+    else:
+        sh("git", "-C", srepo, "checkout", "--", ".")
+        sh("git", "-C", srepo, "checkout", "--detach", head)
+    os.makedirs(sverif, exist_ok=True)
+    sh("rsync", "-a", "--delete", "--exclude", "target*", "--exclude", ".work", "--exclude", "replays", "--exclude", ".git",
+       "--exclude", "evidence", ROOT + "/", sverif + "/")
+    for f in ("harness/Cargo.toml",):
+        p = os.path.join(sverif, f)
+        s = open(p).read().replace('path = "/repo"', 'path = "%s"' % srepo)
+        open(p, "w").write(s)
     try:
         if os.path.exists(mid):
-            r = subprocess.run(["git", "-C", "/repo", "apply", os.path.abspath(mid)])
+            r = sh("git", "-C", srepo, "apply", os.path.abspath(mid))
             if r.returncode != 0:
-                print("patch does not apply"); return 2
+                print("patch does not apply\n" + r.stdout)
+                return 2
+            print("applied patch", mid)
         else:
             d = json.load(open(os.path.join(ROOT, "notes", "mutants.json")))
             m = [x for x in d["valid"] if x["id"] == mid]
             if not m:
-                print("unknown mutant", mid); return 2
+                print("unknown mutant", mid)
+                return 2
             for e in m[0]["edits"]:
-                p = os.path.join("/repo", e["file"]); s = open(p).read()
+                p = os.path.join(srepo, e["file"])
+                s = open(p).read()
                 if s.count(e["old"]) != 1:
-                    print("edit does not apply uniquely in", e["file"], s.count(e["old"])); return 2
+                    print("edit does not apply uniquely in", e["file"], s.count(e["old"]))
+                    return 2
                 open(p, "w").write(s.replace(e["old"], e["new"]))
             print("applied", mid, "-", m[0]["note"])
         rc_all = {}
         for c in checks:
             pid, _, tier = c.partition(":")
-            env = dict(os.environ)
-            p = subprocess.run([os.path.join(ROOT, "check"), pid, tier or "quick"], stdout=subprocess.PIPE, stderr=subprocess.STDOUT, text=True, env=env)
+            p = sh(os.path.join(sverif, "check"), pid, tier or "quick")
             lines = p.stdout.strip().splitlines()
-            v = [l for l in lines if l.startswith("VIOLATION") or l.startswith("  signature")]
-            print("== %s rc=%d" % (c, p.returncode)); print("\n".join(v[:12])); print(lines[-1] if lines else "")
+            v = [l for l in lines if l.startswith(("VIOLATION", "  signature", "KNOWN", "VACUOUS", "BUILD-FAILED", "INCONCLUSIVE"))]
+            print("== %s rc=%d" % (c, p.returncode))
+            print("\n".join(x[:200] for x in v[:14]))
+            print(lines[-1][:300] if lines else "")
             rc_all[c] = p.returncode
-        print("RESULT", mid, rc_all)
+        print("RESULT", os.path.basename(mid), rc_all)
     finally:
-        subprocess.run(["git", "-C", "/repo", "checkout", "--", "."])
+        sh("git", "-C", srepo, "checkout", "--", ".")
     return 0
+
 
 sys.exit(main())
